@@ -625,6 +625,9 @@ class C04(SimCheck):
             for c in parse(impl["trace"]):
                 if is_int(c["t"]) and c["t"] > D:
                     fails.append(("C04:callback-after-duration", f"callback {cb_tuple(c)} observes a time after the duration {D}"))
+        # "in order": by timestamp (checked above through the hooks) and, within one instant, in the order requested
+        for _, msg in fifo_failures(case, impl)[:1]:
+            fails.append(("C04:not-in-order", msg))
         # exactness: compare with the unbounded run of the same (frozen) program on the implementation
         if has_handlers and not impl.get("crash") and (completed(case, impl)) and not case.get("noRef"):
             ref_case = copy.deepcopy(case)
